@@ -154,6 +154,12 @@ func c01Findings() []c01Finding {
 		{ID: "FR1", Repro: reproFR1, Match: func(h prog.History, engine string, o Obs, src string) bool {
 			return engine == "interpreter" && o.Root == rootInvalidatedResource && (hasMemberIndexSwap(src) || memberIndexSwapUpTo(h, -1))
 		}},
+		{ID: "FF9", Repro: reproFF9, Match: func(h prog.History, engine string, o Obs, src string) bool {
+			return o.Root == rootUnexpected && strings.Contains(o.Err, "cannot import array: elements do not belong to the same type")
+		}},
+		{ID: "FK4", Repro: prog.History{}, Match: func(h prog.History, engine string, o Obs, src string) bool {
+			return engine == "vm" && o.Root == rootUnexpected && strings.Contains(o.Err, "cannot find global declaration") && strings.Contains(src, " as ")
+		}},
 		{ID: "FG1", Repro: prog.History{}, Match: func(h prog.History, engine string, o Obs, src string) bool {
 			// group storage/caps (FG1 = FK2): contract added and removed in one transaction orphans its slabs
 			return o.Root == "runtime.UnreferencedRootSlabsError" && strings.Contains(src, ".contracts.add(") && strings.Contains(src, ".contracts.remove(")
@@ -269,6 +275,68 @@ transaction { prepare(a: &Account) {
 transaction { prepare(a: &Account) { destroy C.mk() } }`}}}
 )
 
+// contractUsedAsValue: some step up to `step` uses a contract (declared in a deployed step or imported) as a first-class
+// value, i.e. its identifier occurs other than as the base of a member access (e.g. `{0: C}[0]!`, `[C][0]`, `let c = C`).
+func contractUsedAsValue(h prog.History, step int) bool {
+	if step < 0 || step >= len(h.Steps) {
+		step = len(h.Steps) - 1
+	}
+	names := map[string]bool{}
+	for i := 0; i <= step; i++ {
+		p := parse(h.Steps[i].Source)
+		if p == nil {
+			continue
+		}
+		for _, d := range p.CompositeDeclarations() {
+			if d.CompositeKind == common.CompositeKindContract {
+				names[d.Identifier.Identifier] = true
+			}
+		}
+		for _, imp := range p.ImportDeclarations() {
+			for _, im := range imp.Imports {
+				names[im.Identifier.Identifier] = true
+				if im.Alias.Identifier != "" {
+					names[im.Alias.Identifier] = true
+				}
+			}
+		}
+	}
+	found := false
+	for i := 0; i <= step && !found; i++ {
+		p := parse(h.Steps[i].Source)
+		if p == nil {
+			continue
+		}
+		bases := map[ast.Expression]bool{}
+		ast.Inspect(p, func(e ast.Element) bool {
+			switch x := e.(type) {
+			case *ast.MemberExpression:
+				bases[x.Expression] = true
+			case *ast.IdentifierExpression:
+				if names[x.Identifier.Identifier] && !bases[x] {
+					found = true
+				}
+			}
+			return true
+		})
+	}
+	return found
+}
+
+var reproFF10 = prog.History{Steps: []prog.Step{
+	{Kind: prog.Deploy, Name: "C", Signers: []uint64{1}, Source: `access(all) contract C {
+  access(all) struct S {
+    access(all) let a: Int
+    access(all) var b: Int
+    init() { self.a = 123; self.b = 456 }
+  }
+}`},
+	{Kind: prog.Tx, Signers: []uint64{1}, Source: `import C from 0x1
+transaction { prepare(acct: auth(Storage) &Account) {
+    let s = ({0: C}[0]!).S()
+    acct.storage.save(C.S(), to: /storage/s)
+} }`}}}
+
 var paramNameRe = regexp.MustCompile(`"label":"[^"]*","id":"[^"]*"`)
 
 // onlyFunctionParamNamesDiffer: both results are exported function values whose JSON-CDC
@@ -287,6 +355,13 @@ access(all) fun getFunction(): (fun(Int)) {
 }
 access(all) fun main(): fun(Int): Void { return getFunction() }`)
 
+var reproFF9 = prog.History{Steps: []prog.Step{{Kind: prog.Script, Args: []string{`{"type":"Array","value":[]}`},
+	Source: `access(all) fun main(value: AnyStruct) { log(value) }`}}}
+
+var reproFF11 = script(`
+access(all) contract A { access(all) struct S {} }
+access(all) fun main() { log(A.S()) }`)
+
 var reproFF8 = script(`access(all) fun main(): Type? { return CompositeType("Foo") }`)
 
 // c34Findings lists the known root causes of engine divergence (narrow predicates:
@@ -298,6 +373,17 @@ func c34Findings() []c34Finding {
 		}},
 		{ID: "FR1", Repro: reproFR1, Match: func(h prog.History, pair string, d *Divergence, src string) bool {
 			return pair == "interpreter~vm" && strings.HasPrefix(d.Sig, "class internal/"+rootInvalidatedResource+" vs ") && memberIndexSwapUpTo(h, d.Step)
+		}},
+		{ID: "FF10", Repro: reproFF10, Match: func(h prog.History, pair string, d *Divergence, src string) bool {
+			return pair == "interpreter~vm" && (d.What == "ledger" || d.What == "logs" || d.What == "value") && contractUsedAsValue(h, d.Step)
+		}},
+		{ID: "FF11", Repro: reproFF11, Match: func(h prog.History, pair string, d *Divergence, src string) bool {
+			return pair == "interpreter~vm" && strings.HasPrefix(d.Sig, "class user/errors.DefaultUserError vs ") &&
+				strings.Contains(d.A, "failed to load contract") && declaresContractOutsideAccount(src)
+		}},
+		{ID: "FK4", Repro: prog.History{}, Match: func(h prog.History, pair string, d *Divergence, src string) bool {
+			// group caps: VM fails to compile an aliased import that follows the import of a contract importing the same contract
+			return pair == "interpreter~vm" && strings.HasSuffix(d.Sig, " vs internal/"+rootUnexpected) && strings.Contains(d.B, "cannot find global declaration")
 		}},
 		{ID: "FR2", Repro: prog.History{}, Match: func(h prog.History, pair string, d *Divergence, src string) bool {
 			// interpreter-only atree validation failure (stale parent slab size); no small repro here, see findings_inbox/res.md
